@@ -277,7 +277,10 @@ def check_seq(prop, tier):
 
     # 2. model-derived call sequences (transition cover + identifying suffixes)
     derived = mccheck.derived_executions(prop, tier, wd, rng)
-    all_execs = derived + execs
+    # 2b. the scale batch: big capacities, long histories, mass expiry, long ranges
+    scale = vlib.scale_batch(rng, kinds, tier)
+    all_execs = derived + execs + scale
+    extra_cov["scale_batch_executions"] = len(scale)
 
     # 3. conformance of the real code under the slice of this property
     res = seqcheck.run_scripts(all_execs, spec["strict"], os.path.join(wd, "slice"), "plain", "s", spec["nontrivial"])
